@@ -14,10 +14,20 @@ Record tcase := mk_tcase { tc_history : list trec }.
 Definition cur_of (rt : retr) : N := match rt with Some (c, _) => c | None => 0 end.
 
 Definition is_logev (r : trec) : bool := match r with RLogEv _ _ _ => true | _ => false end.
+(* the harness gives the logging hooks the step ids 90001 (before) and 90002 (after) *)
+Definition hook_id (before : bool) : N := if before then 90001 else 90002.
 Definition step_result (e : ev) : option (N * N * N) :=       (* scenario, step, attempt *)
   match e with
   | EvScen _ _ s rt (ScStep st x) | EvScen _ _ s rt (ScBg st x) =>
     match x with StStarted => None | _ => Some (s, st, cur_of rt) end
+  | EvScen _ _ s rt (ScHook b h) =>
+    match h with HStarted => None | _ => Some (s, hook_id b, cur_of rt) end
+  | _ => None
+  end.
+Definition step_started (e : ev) : option (N * N * N) :=
+  match e with
+  | EvScen _ _ s rt (ScStep st StStarted) | EvScen _ _ s rt (ScBg st StStarted) => Some (s, st, cur_of rt)
+  | EvScen _ _ s rt (ScHook b HStarted) => Some (s, hook_id b, cur_of rt)
   | _ => None
   end.
 
@@ -80,29 +90,33 @@ Record mon := mk_mon {
 Definition k3_eqb (a b : N * N * N) : bool :=
   match a, b with (x, y, z), (x', y', z') => (x =? x') && (y =? y') && (z =? z') end.
 
-Fixpoint mon_walk (m : mon) (h : list trec) : bool :=
+(* `relaxed`: a message emitted inside an AFTER hook is not required to arrive while that hook is open (K20a) *)
+Fixpoint mon_walk (relaxed : bool) (m : mon) (h : list trec) : bool :=
   match h with
   | [] => forallb (fun e => match e with (msg, _, _) => memN msg (m_delivered m) end) (m_emitted m)
   | r :: t =>
     match r with
-    | RCb s st k x => mon_walk (mk_mon ((s, st, k, x) :: m_cbs m) (m_emitted m) (m_delivered m) (m_open m)) t
-    | REmit s msg x => mon_walk (mk_mon (m_cbs m) ((msg, s, x) :: m_emitted m) (m_delivered m) (m_open m)) t
+    | RCb s st k x => mon_walk relaxed (mk_mon ((s, st, k, x) :: m_cbs m) (m_emitted m) (m_delivered m) (m_open m)) t
+    | REmit s msg x => mon_walk relaxed (mk_mon (m_cbs m) ((msg, s, x) :: m_emitted m) (m_delivered m) (m_open m)) t
     | RLogEv s rt (Some msg) =>
       (* delivered once, to the scenario and attempt that emitted it, while the emitting step is open *)
       match find (fun e => match e with (msg', _, _) => msg' =? msg end) (m_emitted m) with
       | Some (_, s', x) =>
         (s' =? s) && negb (memN msg (m_delivered m))
         && match find (fun c => match c with (_, _, _, x') => x' =? x end) (m_cbs m) with
-           | Some (s2, st, k, _) => (s2 =? s) && (k =? cur_of rt) && existsb (k3_eqb (s, k, st)) (m_open m)
+           | Some (s2, st, k, _) =>
+             (s2 =? s) && (k =? cur_of rt)
+             && (existsb (k3_eqb (s, k, st)) (m_open m) || (relaxed && (st =? hook_id false)))
            | None => false
            end
-        && mon_walk (mk_mon (m_cbs m) (m_emitted m) (msg :: m_delivered m) (m_open m)) t
+        && mon_walk relaxed (mk_mon (m_cbs m) (m_emitted m) (msg :: m_delivered m) (m_open m)) t
       | None => false
       end
     | RLogEv _ _ None => false              (* a Log event nobody emitted *)
-    | REv (EvScen _ _ s rt (ScStep st StStarted)) | REv (EvScen _ _ s rt (ScBg st StStarted)) =>
-      mon_walk (mk_mon (m_cbs m) (m_emitted m) (m_delivered m) ((s, cur_of rt, st) :: m_open m)) t
     | REv e =>
+      match step_started e with
+      | Some (s, st, k) => mon_walk relaxed (mk_mon (m_cbs m) (m_emitted m) (m_delivered m) ((s, k, st) :: m_open m)) t
+      | None =>
       match step_result e with
       | Some (s, st, k) =>
         (* the result comes after every log emitted inside the step *)
@@ -110,15 +124,26 @@ Fixpoint mon_walk (m : mon) (h : list trec) : bool :=
                    match span_of (m_cbs m) s st k with
                    | Some x' => negb (x =? x') || memN msg (m_delivered m)
                    | None => true end end) (m_emitted m)
-        && mon_walk (mk_mon (m_cbs m) (m_emitted m) (m_delivered m)
-                            (filter (fun o => negb (k3_eqb o (s, k, st))) (m_open m))) t
-      | None => mon_walk m t
+        && mon_walk relaxed (mk_mon (m_cbs m) (m_emitted m) (m_delivered m)
+                                    (filter (fun o => negb (k3_eqb o (s, k, st))) (m_open m))) t
+      | None => mon_walk relaxed m t
       end
-    | _ => mon_walk m t
+      end
+    | _ => mon_walk relaxed m t
     end
   end.
 
-Definition c20_ok (c : tcase) : bool := mon_walk (mk_mon [] [] [] []) (tc_history c).
+Definition c20_ok (c : tcase) : bool := mon_walk false (mk_mon [] [] [] []) (tc_history c).
+
+(* K20a: the After hook is RUN before any of its events is emitted (and before the failure event of the step or Before
+   hook that failed: src/runner/basic.rs:1711-1727 explains why), so whatever it logs is delivered BEFORE its own
+   Started event. Class 1 = some message was emitted inside an after hook; such a run must still satisfy everything
+   else (the relaxed monitor) and be replayed by the protocol model to count as failing "in the recorded way". *)
+Definition known20 (c : tcase) : N :=
+  let h := tc_history c in
+  let after_spans := flat_map (fun r => match r with RCb _ st _ x => if st =? hook_id false then [x] else [] | _ => [] end) h in
+  if existsb (fun r => match r with REmit _ _ x => memN x after_spans | _ => false end) h then 1 else 0.
+Definition c20_relaxed_ok (c : tcase) : bool := mon_walk true (mk_mon [] [] [] []) (tc_history c).
 
 Definition verdict (id : N) (c : tcase) : list (list N) :=
-  [vrow id 1 (judge (c20_ok c) (same_as_model c) 0)].
+  [vrow id 1 (judge (c20_ok c) (same_as_model c && c20_relaxed_ok c) (known20 c))].
